@@ -4,6 +4,7 @@ import Genshi.Model.MatchPath
 import Genshi.Model.MatchLazy
 import Genshi.Model.MatchSpec
 import Genshi.Model.MatchReal
+import Genshi.Model.MatchOnceXp
 import Driver.C05
 namespace Driver.C12
 open Genshi Genshi.Match Genshi.Sexp
@@ -22,6 +23,7 @@ open Genshi Genshi.Match Genshi.Sexp
   C12 real <fuel> ( ritem … )    the automaton model with `mkReal` templates
   C12 xspec ( ritem … )           the specification with the XPath reference semantics as the "matches"
                                   relation (`xpForest`/`patternSel`): one tree rewrite per template
+                                  (`xpOnceForest` for a `once` template: the first XPath match in document order)
      ritem := ( S name ( ( attr value ) … ) ) | ( E name ) | ( T text )
             | ( REGT "path text" ( bitem … ) buffer once recursive )
 -/
@@ -218,7 +220,9 @@ def xstages : List RDecl → List Event → Option (List Event)
   | [], es => some es
   | d :: ds, es => do
       let forest ← toForest es [] []
-      xstages ds (xpForest (patternSel d.paths [] []) d.body (!d.hints.notRecursive) forest)
+      -- `once`: the first XPath match in document order (`xpOnceForest`); otherwise every match (`xpForest`)
+      xstages ds (if d.hints.matchOnce then (xpOnceForest (patternSel d.paths [] []) d.body forest).1
+                  else xpForest (patternSel d.paths [] []) d.body (!d.hints.notRecursive) forest)
 
 def xspecAnswer (items : List Sexp) : Option Sexp :=
   match items with
@@ -237,7 +241,7 @@ def xspecAnswer (items : List Sexp) : Option Sexp :=
           let evs ← content.mapM rev?
           match evs.reverse with
           | .end_ root' :: revc =>
-            if root' != rootTag || decls.any (fun d => d.hints.matchOnce || !(d.paths.all specPathOk)) then
+            if root' != rootTag || decls.any (fun d => !(d.paths.all specPathOk)) then
               pure (.atom "unmodelled")
             else
               match xstages decls revc.reverse with
